@@ -76,6 +76,70 @@ def work(job):
     return part
 
 
+def work_set(job):
+    """SET / SET OF (outside the Lean universe): components in any order, alone and mixed with the other forms.  A variant is
+    certified by the independent reader of harness/tlv.py: its canonical re-serialisation (definite minimal lengths, primitive
+    strings, SET components sorted by tag) must equal that of the encoder output."""
+    import random
+    part = core.Part()
+    for (seed, t, text, vals) in job:
+        rng = random.Random(seed)
+        st, spec = impl.compile_text(text, 'ber')
+        if st != 'ok':
+            part.count('compile.' + st)
+            continue
+        for v in vals:
+            r = impl.encode(spec, 'A', v)
+            if r[0] != 'ok':
+                continue
+            own = impl.decode(spec, 'A', r[1])
+            if own[0] != 'ok' or not py_equal(t, own[1], v):
+                continue            # C01's business
+            try:
+                node, end = tlv.parse(r[1])
+                canon0 = tlv.canonical(t, node)
+            except Exception:
+                part.count('tlv-parse-failed')
+                continue
+            seen = {r[1]}
+            for kind, forms in tlv.SET_KINDS.items():
+                for _ in range(3):
+                    alt = tlv.reser(t, node, True, rng, forms)
+                    if alt in seen:
+                        continue
+                    seen.add(alt)
+                    part.case((text, alt.hex()))
+                    try:
+                        n2, e2 = tlv.parse_any(alt)
+                        ok = e2 == len(alt) and tlv.canonical(t, n2) == canon0
+                    except Exception:
+                        ok = False
+                    if not ok:
+                        part.count('variant-not-certified.' + kind)
+                        continue
+                    d = impl.decode(spec, 'A', alt)
+                    part.count('%s.%s' % (kind, 'accepted' if d[0] == 'ok' else d[1].split(':')[0]))
+                    if d[0] == 'ok' and py_equal(t, d[1], v):
+                        part.sample({'module': text, 'value': repr(v)[:160], 'variant_kind': kind, 'variant': alt.hex()[:120], 'decoded': 'same value'})
+                        continue
+                    part.violation('ber: a valid re-serialisation (%s) of an encoder output is not decoded to the value that was encoded' % kind,
+                                   {'module': text, 'value': repr(v), 'variant': alt.hex(), 'kind': kind, 'impl': repr(d)[:400], 'encoder_output': r[1].hex()})
+    return part
+
+
+def has_set(t):
+    k = t['k']
+    if k == 'set':
+        return True
+    if k in ('seq',):
+        return any(has_set(m['t']) for m in t['root'] + (t['ext'] or []))
+    if k in ('seqof', 'setof'):
+        return has_set(t['elem'])
+    if k == 'choice':
+        return any(has_set(a[1]) for a in t['root'] + (t['ext'] or []))
+    return False
+
+
 def run(ctx):
     rng = ctx.rng
     ctx.assumptions += ['the set of "valid BER serialisations" is the relation decided by the Lean reference decoder X690.berDecodeRef (my reading of X.690 8.1.3, 8.1.5, 8.7, 8.6, 8.23): content octets of primitives as the DER encoder writes them',
@@ -92,6 +156,19 @@ def run(ctx):
     parts = core.parallel_map(work, [jobs[k::n] for k in range(n)])
     core.merge(ctx, parts)
     ctx.model.calls += ctx.hist.pop('model_driver_requests', 0)
+    # SET components in any order (X.690 8.11.3), alone and combined with constructed strings / indefinite lengths
+    opts_set = Opts(max_depth=3, allow_exotic=0.0, big_lengths=0.0, kinds=['bool', 'int', 'enum', 'octs', 'bits', 'str', 'set', 'set', 'seq', 'setof', 'choice'])
+    jobs = []
+    tries = 0
+    while len(jobs) < ctx.n(160, 3000) and tries < 100000:
+        tries += 1
+        g = Gen(rng, opts_set)
+        t = g.type()
+        if not has_set(t):
+            continue
+        jobs.append((rng.getrandbits(32), t, module_text([('A', t)]), [g.value(t) for _ in range(3)]))
+    parts = core.parallel_map(work_set, [jobs[k::n] for k in range(n)])
+    core.merge(ctx, parts)
     # witness of the known finding
     w = 'M DEFINITIONS AUTOMATIC TAGS ::= BEGIN A ::= SEQUENCE { a BOOLEAN, ..., b INTEGER OPTIONAL } END'
     st, spec = impl.compile_text(w, 'ber')
